@@ -60,6 +60,64 @@ theorem fires_iff (P : Proc K U E Λ) (l : Λ) (p : K) (h : Nat) (es : List E) (
   simp only [List.nil_append, List.mem_map, List.mem_filter, decide_eq_true_eq]
   exact ⟨(e, r), ⟨hm, hle⟩, rfl⟩
 
+/-- `n` calls give `n` numbers -/
+theorem pops_length (P : Proc K U E Λ) : ∀ (n : Nat) (u : U) (rs : List K) (u' : U), pops P n u = some (rs, u') → rs.length = n := by
+  intro n
+  induction n with
+  | zero => intro u rs u' h; simp [pops] at h; simp [h.1.symm]
+  | succ n ih =>
+    intro u rs u' h
+    simp only [pops] at h
+    cases hr : P.rand u with
+    | none => simp [hr] at h
+    | some x =>
+      obtain ⟨r, u1⟩ := x
+      simp only [hr] at h
+      cases hp : pops P n u1 with
+      | none => simp [hp] at h
+      | some y =>
+        simp only [hp, Option.map_some, Option.some.injEq, Prod.mk.injEq] at h
+        rw [← h.1]; simp [ih u1 y.1 y.2 (by rw [hp])]
+
+/-- conversely: whatever is put in the tranche was put there by its own coordinate passing the test, and the tranche keeps
+    the iteration order of the locus with nothing repeated that the locus does not repeat -/
+theorem fires_only_if (P : Proc K U E Λ) (l : Λ) (p : K) (h : Nat) (es : List E) (u : U) (rs : List K) (u' : U)
+    (hp : pops P es.length u = some (rs, u')) (res : List (Λ × E × Nat)) (u'' : U)
+    (hr : perElTrials P l p h es u [] = some (res, u'')) :
+    u'' = u' ∧ res = ((es.zip rs).filter (fun y => decide (y.2 ≤ p))).map (fun y => (l, y.1, h)) ∧
+      ∀ x ∈ res, ∃ r, (x.2.1, r) ∈ es.zip rs ∧ r ≤ p := by
+  rw [perElTrials_coord, hp] at hr
+  simp only [Option.map_some, List.nil_append, Option.some.injEq, Prod.mk.injEq] at hr
+  obtain ⟨h1, h2⟩ := hr
+  refine ⟨h2.symm, h1.symm, ?_⟩
+  intro x hx
+  rw [← h1] at hx
+  simp only [List.mem_map, List.mem_filter, decide_eq_true_eq] at hx
+  obtain ⟨y, ⟨hy1, hy2⟩, rfl⟩ := hx
+  exact ⟨y.2, hy1, hy2⟩
+
+/-- the number of elements that fire is the number of coordinates that pass: the count is a sum of the `es.length` indicators -/
+theorem fired_count (P : Proc K U E Λ) (l : Λ) (p : K) (h : Nat) (es : List E) (u : U) (rs : List K) (u' : U)
+    (hp : pops P es.length u = some (rs, u')) :
+    ∃ res, perElTrials P l p h es u [] = some (res, u') ∧ res.length = (rs.filter (fun r => decide (r ≤ p))).length := by
+  rw [perElTrials_coord, hp]
+  refine ⟨_, rfl, ?_⟩
+  simp only [List.nil_append, List.length_map]
+  have : ∀ (es : List E) (rs : List K), rs.length = es.length →
+      ((es.zip rs).filter (fun y => decide (y.2 ≤ p))).length = (rs.filter (fun r => decide (r ≤ p))).length := by
+    intro es
+    induction es with
+    | nil => intro rs h; cases rs <;> simp_all
+    | cons e es ih =>
+      intro rs h
+      cases rs with
+      | nil => simp at h
+      | cons r rs =>
+        simp only [List.zip_cons_cons, List.filter_cons]
+        have := ih rs (by simpa using h)
+        by_cases hle : r ≤ p <;> simp [hle, this]
+  exact this es rs (pops_length P _ u rs u' hp)
+
 /-- a per-element event with probability zero or an empty locus consumes no random number and fires nothing (C05) -/
 theorem no_trial_when_zero (P : Proc K U E Λ) (l : Λ) (p : K) (h : Nat) (rest : List (Λ × K × Nat)) (u : U)
     (acc : List (Λ × E × Nat)) (hz : P.size u l = 0 ∨ ¬ Arith.zero < p) :
